@@ -34,10 +34,13 @@ def rc (t : Nat) : Bool :=
   if t % 255 = 0 then true
   else (iter lfsrStep (t % 255) [true, false, false, false, false, false, false, false]).getD 0 false
 
+/-- rc(0), …, rc(254) computed once (rc has period 255); only an evaluation cache for `RC` -/
+def rcCache : Array Bool := Array.ofFn (n := 255) fun t => rc t.val
+
 /-- Algorithm 6 steps 2–3: RC = 0^w; for j from 0 to ℓ: RC[2^j − 1] = rc(j + 7·ir)   (w = 2^ℓ) -/
 def RC (w ir : Nat) : BitVec w :=
   (List.range (Nat.log2 w + 1)).foldl
-    (fun acc j => if rc (j + 7 * ir) then acc ||| BitVec.twoPow w (2 ^ j - 1) else acc) 0
+    (fun acc j => if rcCache.getD ((j + 7 * ir) % 255) false then acc ||| BitVec.twoPow w (2 ^ j - 1) else acc) 0
 
 /-! ### ρ offsets (Algorithm 2) -/
 
